@@ -148,7 +148,13 @@ def build_impl():
     return rc == 0, out + out2
 
 
-def run_driver(cases, timeout=900):
+def build_race_driver():
+    """the in-package driver once more, under the Go race detector"""
+    rc, out = sh(["go", "test", "-c", "-race", "-tags", "verif", "-o", os.path.join(HARNESS, "bin", "vflow.race.test"), "./vflow/"], cwd=REPO, env=GOENV, timeout=900)
+    return rc == 0, out
+
+
+def run_driver(cases, timeout=900, race=False):
     """cases: list of dicts -> list of results (one JSON object per case) from the in-package verif driver.  If the code
     under test ends the process (os.Exit / log.Fatal / an unrecovered panic in another goroutine), the case being processed
     gets an error result and the remaining cases are run in a fresh process."""
@@ -164,10 +170,16 @@ def run_driver(cases, timeout=900):
                 for c in todo:
                     f.write(json.dumps(c) + "\n")
             env = dict(GOENV, VERIF_IN=fin, VERIF_OUT=fout)
+            if race:
+                env["GORACE"] = "halt_on_error=1 exitcode=66"
             try:
-                p = subprocess.run([os.path.join(HARNESS, "bin", "vflow.test"), "-test.run", "TestVerifDriver", "-test.timeout", "%ds" % timeout],
+                p = subprocess.run([os.path.join(HARNESS, "bin", "vflow.race.test" if race else "vflow.test"), "-test.run", "TestVerifDriver", "-test.timeout", "%ds" % timeout],
                                    env=env, stdout=subprocess.PIPE, stderr=subprocess.STDOUT, text=True, timeout=timeout + 30)
                 rc, tail = p.returncode, p.stdout[-400:]
+                if race and "DATA RACE" in p.stdout:
+                    # keep the report: which accesses, in which functions
+                    k = p.stdout.index("DATA RACE")
+                    tail = "DATA RACE " + " | ".join(l.strip() for l in p.stdout[k:k + 3000].split("\n") if REPO + "/" in l or l.startswith(("Write at", "Read at", "Previous")))[:900]
             except subprocess.TimeoutExpired:
                 rc, tail = -9, "timeout"
             got = []
@@ -181,7 +193,7 @@ def run_driver(cases, timeout=900):
             res += got
             todo = todo[len(got):]
             if todo:
-                res.append({"error": "the process ended while this case was being processed (exit %s): %s" % (rc, tail.strip()[-300:])})
+                res.append({"error": "the process ended while this case was being processed (exit %s): %s" % (rc, tail.strip()[-900:])})
                 todo = todo[1:]
                 restarts += 1
                 if restarts > 50:
